@@ -229,6 +229,29 @@ theorem chase_acyclic_of_check {α : Type} [DecidableEq α] (t : Patches α)
 theorem chase_deterministic {α : Type} [DecidableEq α] (t : Patches α) (n r r' : α)
     (h : Loop t n r) (h' : Loop t n r') : r = r' := Lemmas.loop_det h h'
 
+/-- **What the lookup returns after the loop** (every table, every environment `imp` =
+"`lookup_class` finds this name"): the patched target whenever it can be imported — exactly what the
+loop alone returned before `fix: patch fallback to live class`, so sessions written by old versions
+load as before whenever the new location is installed —; otherwise the *original* name if it was
+redirected and can still be imported; otherwise `ValueError` about the target.  Nothing else is ever
+returned. -/
+theorem lookup_fallback_spec {α : Type} [DecidableEq α] (t : Patches α) (imp : α → Bool) (fuel : Nat)
+    (name r : α) (hr : chase t fuel name = some r) :
+    (imp r = true → lookupWithPatches t imp fuel name = some (.found r) ∧
+        Orig.lookupWithPatches t imp fuel name = some (.found r)) ∧
+    (imp r = false → r ≠ name → imp name = true → lookupWithPatches t imp fuel name = some (.found name)) ∧
+    (imp r = false → (r = name ∨ imp name = false) → lookupWithPatches t imp fuel name = some (.error r)) ∧
+    (∀ n, lookupWithPatches t imp fuel name = some (.found n) → imp n = true ∧ (n = r ∨ n = name)) := by
+  have hs := Lemmas.finish_spec imp name r
+  simp only [lookupWithPatches, Orig.lookupWithPatches, hr, Option.map_some, Option.some.injEq]
+  refine ⟨fun h => ⟨hs.1 h, by simp [h]⟩, hs.2.1, hs.2.2, fun n hn => ?_⟩
+  unfold finish at hn
+  split at hn
+  · cases hn; exact ⟨‹_›, Or.inl rfl⟩
+  · split at hn
+    · cases hn; exact ⟨(‹_ ∧ _›).2, Or.inr rfl⟩
+    · cases hn
+
 /-! ## The generated tables of the tree under test
 
 Names are interned by the translator (`names : id ↦ (string, inside "glue.")`); `nameOf`/`inPkg`
@@ -281,6 +304,26 @@ theorem no_capture_partial (p : Nat × Nat) (hp : p ∈ patches)
     (hw : isLiveWritten liveClasses p.1 = true) : nameOf p.1 ∈ knownCaptured :=
   Lemmas.noCaptureExcept_spec (nameOf := nameOf) (by decide +kernel) p hp hw
 
+/-- the lookup terminates for every name in every environment. -/
+theorem lookup_with_patches_total (imp : Nat → Bool) (name : Nat) :
+    ∃ res, lookupWithPatches patches imp patches.length name = some res :=
+  let ⟨r, h, _⟩ := patches_terminate name
+  ⟨finish imp name r, by simp [lookupWithPatches, h]⟩
+
+/-- **A captured live class still loads when its new location is not installed** (repair F12b of
+finding F12).  For every key of this tree's table that names a concrete class the package still
+defines and writes (the captured ones: F12), in every environment `imp` that agrees with what the
+translator observed for the names inside the package (`importable`: `lookup_class(name)` un-patched,
+on the tree under test): if the patched target cannot be imported (glue_qt is not installed), the
+lookup returns **the live class itself** — the class that wrote the record.  (When the target can be
+imported the record is still redirected to it: that is the capture F12 keeps reporting.) -/
+theorem captured_live_class_still_loads (imp : Nat → Bool) (hag : ∀ e ∈ importable, imp e.1 = e.2)
+    (p : Nat × Nat) (hp : p ∈ patches) (hw : isLiveWritten liveClasses p.1 = true)
+    (r : Nat) (hr : chase patches patches.length p.1 = some r) (ht : imp r = false) :
+    lookupWithPatches patches imp patches.length p.1 = some (.found p.1) :=
+  have hc : capturedImportable patches liveClasses importable = true := by decide +kernel
+  Lemmas.lookup_falls_back imp _ p.1 r hr (hag _ (Lemmas.capturedImportable_spec hc p hp hw)) ht
+
 /-- Witness for F12 on a frozen excerpt of the pinned tree's table: the two layer-artist classes
 are captured (their records are redirected out of the package that wrote them). -/
 theorem no_capture_witness_F12 :
@@ -289,7 +332,18 @@ theorem no_capture_witness_F12 :
        "glue.viewers.profile.layer_artist.ProfileLayerArtist"] ∧
     chase pinnedF12Patches pinnedF12Patches.length
         "glue.viewers.histogram.layer_artist.HistogramLayerArtist" =
-      some "glue_qt.viewers.histogram.layer_artist.QThreadedHistogramLayerArtist" := by
+      some "glue_qt.viewers.histogram.layer_artist.QThreadedHistogramLayerArtist" ∧
+    -- glue_qt installed: the record of the live class is redirected (the capture, with and without F12b)
+    lookupWithPatches pinnedF12Patches (fun _ => true) pinnedF12Patches.length
+        "glue.viewers.histogram.layer_artist.HistogramLayerArtist" =
+      some (.found "glue_qt.viewers.histogram.layer_artist.QThreadedHistogramLayerArtist") ∧
+    -- glue_qt absent: the pinned tree raised, the repaired lookup returns the live class
+    Orig.lookupWithPatches pinnedF12Patches (fun n => inPackage n && !n.startsWith "glue.viewers.histogram.qt")
+        pinnedF12Patches.length "glue.viewers.histogram.layer_artist.HistogramLayerArtist" =
+      some (.error "glue_qt.viewers.histogram.layer_artist.QThreadedHistogramLayerArtist") ∧
+    lookupWithPatches pinnedF12Patches (fun n => inPackage n && !n.startsWith "glue.viewers.histogram.qt")
+        pinnedF12Patches.length "glue.viewers.histogram.layer_artist.HistogramLayerArtist" =
+      some (.found "glue.viewers.histogram.layer_artist.HistogramLayerArtist") := by
   decide +kernel
 
 /-- Versions are consecutive from 1: every type in either registry stores exactly the version
